@@ -2,6 +2,7 @@ CONSTANTS Menu = "C04"
  MaxTail = 1
  Layouts = {"siblings", "nested", "root"}
  AllPlants = FALSE
+ Lite = TRUE
  Flavours <- Flav_shadow
 INIT HInit
 NEXT HNext
